@@ -15,6 +15,7 @@ pub fn run_line(line: &str) -> String {
         "cmp" => run_cmp(&mut t),
         "eval" => run_eval(&mut t),
         "env" => run_env(&mut t),
+        "evalcs" => (|| { let d = EnvDesc::parse(&mut t)?; let e = t.expr()?; let env = CsEnv::new(&d)?; let r = execute(&env, &e); Some(format!("{} ; {}", show_res(&r), env.trace())) })(),
         "num" => crate::numrun::run_num(&mut t),
         "call" => crate::call::run_call(&mut t),
         "rep" => crate::call::run_rep(&mut t),
